@@ -25,6 +25,7 @@ func checkC20(c *fw.Ctx) {
 	c20Expiry(c)
 	c20FailingCaveat(c)
 	c20EveryTimeCaveat(c)
+	c20NoKeylessCache(c)
 	c20Issuer(c)
 	c20Clock(c)
 	c20Fresh(c)
